@@ -2,6 +2,15 @@
 """Writes MANIFEST.json. The list DONE names the properties whose checks exist."""
 import json, subprocess
 DONE = {
+ "C01": ("exploration", "differential round-trip monitor (9 print x 9 parse entry points) + independent R7RS reference reader",
+         "Values from a generator covering all 11 kinds, every char class, boundary integers and doubles by shape of their shortest form are printed through every print entry point (bytes must agree) and re-read through every parse entry point (structural equality, floats by the C05 rule of the build); an independent reference reader must read the same datum. Both feature builds. Thorough enumerates every Unicode scalar value. Exploration: the space is infinite, the defect classes are per-leaf-class and are each hit thousands of times.",
+         "trusted: the harness's reference reader and value comparator; Rust's f64 parser as correctly rounded", "4/C01"),
+ "C05": ("exploration", "numeric oracle monitor: bignum + correctly rounded f64 + exactness/accuracy/range clauses per literal",
+         "Every literal is scanned by the harness itself into (radix, sign, digits, fraction, exponent); a bignum gives the exact value and Rust's correctly rounding parser the nearest double; the clause that applies (exact integer / exact double / 2^-50 accuracy / out of range) is decided on the literal text and compared with what the parser returned, in both feature builds. All 64-bit boundaries are enumerated in 4 radixes; doubles are re-spelled 7 ways.",
+         "trusted: Rust's str::parse::<f64>; the 60-line bignum (unit tested); tolerance 2^-50+2^-52 (never stricter than the statement)", "4/C05"),
+ "C15": ("exploration", "reference-model monitor: every list accessor against a Vec model (xs, t)",
+         "Lists are built by five routes (Value::list, append, nested cons, From<(T,U)>, parser) from a known element vector and tail; each accessor, iterator protocol (incl. peek/is_empty), index and alist lookup is compared with the model; indexing of arbitrary values must not panic.",
+         "trusted: the Vec model and its tail-merging normalisation", "4/C15"),
  "C20": ("exploration", "payload-model differential monitor over accessors, conversions and comparisons",
          "Every value is built from a known Rust payload through every From/constructor path; a 40-line payload model decides each accessor and each ==. Runs the real code on boundary tables for all eight integer widths, f32/f64 incl. non-finite, strings, bytes, compound values. Exploration is the right level: the input space is unbounded but the defect classes (range tests, sign handling, cross-kind comparisons) live at enumerable boundaries.",
          "trusted: Rust `as` casts as the definition of nearest double; the harness payload model", "4/C20"),
